@@ -25,6 +25,7 @@ def generate(rng, seed, index, tier):
     spec, x0, y0 = gen.gen_problem(rng, fam, mmax=4)
     if spec["m"] == 0 and rng.random() < 0.8:
         spec, x0, y0 = gen.gen_problem(rng, fam, mmax=4)
+    x0 = gen.magnify(rng, spec, x0, p=0.12)
     kw = gen.gen_params(rng, spec, x0, y0, p_knob=0.4, reporting=False, numeric=0.2)
     kw["penalty_update"] = str(rng.choice(["Constant", "DualNorm", "DualEquilibration", "ParetoDecrease", "ObjectiveFilter", "LagrangianFilter"], p=[0.1, 0.4, 0.15, 0.15, 0.1, 0.1]))
     if rng.random() < 0.6:
